@@ -224,9 +224,17 @@ def _sort_key_form(fn: T.Any, info: 'CoreInfo') -> T.Optional[T.Tuple[str, str, 
     list()/tuple() of such a generator) with the same key on both sides -> (ours source, theirs source, [projection of
     each key element, `@` = the component], operands swapped?).  None: the core has another shape."""
     body = [s for s in fn.body if not (isinstance(s, ast.Expr) and isinstance(s.value, ast.Constant))]
-    if len(body) != 1 or not isinstance(body[0], ast.Return) or not isinstance(body[0].value, ast.Call):
+    if not body or not isinstance(body[-1], ast.Return) or not isinstance(body[-1].value, ast.Call):
         return None
-    call = body[0].value
+    # the key sequences may be bound to locals first: `mine = [..]; yours = [..]; return comparator(mine, yours)`
+    bound: T.Dict[str, ast.AST] = {}
+    for st in body[:-1]:
+        if isinstance(st, ast.Assign) and len(st.targets) == 1 and isinstance(st.targets[0], ast.Name) and st.targets[0].id not in bound:
+            bound[st.targets[0].id] = st.value
+        else:
+            return None
+    call = copy.deepcopy(body[-1].value)
+    call.args = [bound.get(a.id, a) if isinstance(a, ast.Name) else a for a in call.args]
     if norm(call.func) != info.comparator or len(call.args) != 2 or call.keywords:
         return None
     sides: T.List[T.Tuple[str, T.List[str]]] = []
